@@ -38,7 +38,7 @@ def wrap(layers, inner_ops):
         elif k == 'split':
             ops = [rs.data.split(A.splitf(spec[1], spec[2]), ops)]
         elif k == 'time_split':
-            ops = [rs.data.time_split(time_mapper=lambda i: i, active_timeout=spec[1], inactive_timeout=spec[2],
+            ops = [rs.data.time_split(time_mapper=A.to_dt, active_timeout=A.to_td(spec[1]), inactive_timeout=A.to_td(spec[2]),
                                       closing_mapper=A.closingf(spec[3]), include_closing_item=spec[4], pipeline=ops)]
         else:
             raise ValueError(k)
